@@ -44,6 +44,8 @@ def _apply_ops(envs, ops):
             envs = envs.shuffle(op[1])
         elif name == "take":
             envs = envs.take(op[1])
+        elif name == "batch":
+            envs = envs.batch(op[1])
         else:
             raise ValueError(op)
     return envs
@@ -93,13 +95,22 @@ def _learner(kind, r):
     if t == "kwargs":
         from props.c01_components import KwargsLearner
         return KwargsLearner(r["tag"])
+    if t == "info":
+        from props.c01_components import InfoLearner
+        return InfoLearner(r["tag"], r.get("where", ["score", "predict", "learn"]), r.get("fail_learn_at"))
+    if t == "policy":
+        from props.c01_components import PolicyLearner
+        return PolicyLearner(r["tag"], r["p"])
+    if t == "row":
+        from props.c01_components import RowLearner
+        return RowLearner(r["tag"])
     raise ValueError(t)
 
 
 def _evaluator(kind, r):
     if kind == "toy":
         from props.c01_components import ToyEval
-        return ToyEval(r["tag"], r.get("seed"), r.get("fail_at"), bool(r.get("learn", True)), bool(r.get("params_fail")))
+        return ToyEval(r["tag"], r.get("seed"), r.get("fail_at"), bool(r.get("learn", True)), bool(r.get("params_fail")), r.get("skip_mult"))
     t = r["type"]
     if t == "seq":
         from coba.evaluators import SequentialCB
@@ -374,7 +385,8 @@ def observe(case):
                 params = json.dumps(_plain(dict(SafeEvaluator(copy.deepcopy(v)).params)), sort_keys=True)
             except Exception:
                 params = None
-            vals.append({"seed": r.get("seed"), "fail_at": r.get("fail_at"), "learn": bool(r.get("learn", True)), "params": params})
+            vals.append({"seed": r.get("seed"), "fail_at": r.get("fail_at"), "learn": bool(r.get("learn", True)), "params": params,
+                         "skip_mult": r.get("skip_mult")})
         return {"envs": envs, "lrns": lrns, "vals": vals, "triples": [list(t) for t in b.triples]}
     finally:
         _ctx_set(saved)
@@ -596,6 +608,9 @@ def gen_toy(rng, tier, real_p=0.03, fail_bias=1.0, share_bias=1.0):
         r = {"tag": t, "seed": rng.choice([None, None, 0, 3, 11]), "fail_at": None, "learn": not rng.chance(0.15), "params_fail": rng.chance(0.05)}
         if rng.chance(0.10 * fail_bias):
             r["fail_at"] = rng.randint(0, 3)
+        if rng.chance(0.25):
+            # this evaluator legitimately yields no rows for the learners with that mult (often an early learner)
+            r["skip_mult"] = lrns[rng.below(max(1, len(lrns) - 1))]["mult"] if rng.chance(0.8) else rng.randint(1, 3)
         vals.append(r)
     ne = sum(n_objects(r) for r in envs)
     nl, nv = len(lrns), len(vals)
@@ -623,23 +638,34 @@ def gen_toy(rng, tier, real_p=0.03, fail_bias=1.0, share_bias=1.0):
     return case
 
 
+def gen_builtin_ops(rng):
+    prefix, branches = gen_ops(rng)
+    r = rng.below(100)
+    if r < 22:
+        # the same source un-batched and batched in one experiment (learners that are not batch aware need coba's fallback)
+        branches = [list(br) for br in branches] + [list(branches[0]) + [["batch", rng.choice([2, 3])]]]
+    elif r < 28:
+        branches = [list(br) + [["batch", 2]] for br in branches]
+    return prefix, branches
+
+
 def gen_builtin(rng, tier, real_p=0.03):
     envs = []
     any_logged = False
     for t in range(rng.choice([1, 1, 2])):
         r = {"src": "linear", "n": rng.choice([4, 8, 12, 30]), "na": rng.choice([2, 3, 4]), "seed": rng.randint(1, 5)}
-        if rng.chance(0.35):
+        if rng.chance(0.45):
             r["logged"] = True
             r["log_seed"] = rng.randint(1, 4)
             any_logged = True
-        r["prefix"], r["branches"] = gen_ops(rng)
+        r["prefix"], r["branches"] = gen_builtin_ops(rng)
         envs.append(r)
     na = envs[0]["na"]
     for r in envs:
         r["na"] = na
     lrns = []
-    for t in range(rng.choice([1, 2, 2, 3])):
-        k = rng.below(6)
+    for t in range(rng.choice([1, 2, 2, 3, 3])):
+        k = rng.below(12)
         if k == 0:
             lrns.append({"type": "eps", "eps": rng.choice([0.05, 0.1, 0.5]), "seed": rng.randint(1, 4)})
         elif k == 1:
@@ -650,31 +676,41 @@ def gen_builtin(rng, tier, real_p=0.03):
             lrns.append({"type": "fixed", "pmf": [1.0 / na] * na, "seed": rng.randint(1, 4)})
         elif k == 4:
             lrns.append({"type": "pmf", "tag": t})
-        else:
+        elif k == 5:
             lrns.append({"type": "kwargs", "tag": t})
+        elif k < 9:
+            # reports through CobaContext.learning_info; sometimes raises in learn after predict wrote its info
+            where = rng.choice([["score", "predict", "learn"], ["predict"], ["score"], ["predict", "learn"]])
+            lrns.append({"type": "info", "tag": t, "where": where, "fail_learn_at": rng.choice([None, None, 0, 1, 3])})
+        elif k < 11:
+            lrns.append({"type": "policy", "tag": t, "p": rng.choice([0.0, 0.0, 1.0 / na, 0.5])})
+        else:
+            lrns.append({"type": "row", "tag": t})
     vals = []
-    for t in range(rng.choice([1, 1, 2])):
+    for t in range(rng.choice([1, 2, 2, 3])):
         k = rng.below(10)
-        if k < 5:
+        if k < 4:
             rec = rng.choice([["reward", "action", "probability"], ["reward", "time"], ["reward", "action", "context", "time"], ["reward"]])
             vals.append({"type": "seq", "record": rec, "seed": rng.choice([None, None, 5]), "learn": "on", "eval": "on"})
-        elif k < 7 and any_logged:
+        elif k < 5 and any_logged:
             vals.append({"type": "seq", "record": ["reward"], "seed": rng.choice([None, 2]), "learn": rng.choice(["off", "ips"]), "eval": "ips"})
         elif k < 8 and any_logged:
-            vals.append({"type": "rej", "record": ["reward", "time"], "seed": rng.choice([None, 3])})
-        else:
+            vals.append({"type": "rej", "record": rng.choice([["reward", "time"], ["reward", "action"], ["reward"]]), "seed": rng.choice([None, 3])})
+        elif k < 9:
             vals.append({"type": "fn"})
+        else:
+            vals.append({"type": "seq", "record": ["reward", "action"], "seed": None, "learn": "on", "eval": "on"})
     ne = sum(n_objects(r) for r in envs)
     nl, nv = len(lrns), len(vals)
     case = {"kind": "builtin", "seed": rng.choice([1, 1, 2, 7]), "envs": envs, "lrns": lrns, "vals": vals}
-    if rng.chance(0.6):
+    if rng.chance(0.55):
         case["mode"] = "product"
         case["pe"], case["pl"], case["pv"] = list(range(ne)), list(range(nl)), list(range(nv))
         if nv == 1 and rng.chance(0.5):
             case["single_eval"] = True
     else:
         case["mode"] = "tuples"
-        case["triples"] = [[rng.below(ne), rng.below(nl), rng.choice([-1] + list(range(nv)))] for _ in range(rng.choice([1, 2, 3, 4, 6]))]
+        case["triples"] = [[rng.below(ne), rng.below(nl), rng.choice([-1] + list(range(nv)) * 3)] for _ in range(rng.choice([1, 2, 3, 4, 6]))]
     case["runs"] = gen_runs(rng, tier, real_p, rng.choice([1, 2]))
     if rng.chance(0.3):
         case["rerun"] = True
@@ -713,7 +749,7 @@ def shrink_case(case):
         xs = case[name]
         for k in range(len(xs)):
             r = xs[k]
-            for fld in ("fail_at", "fp", "fl"):
+            for fld in ("fail_at", "fp", "fl", "skip_mult", "fail_learn_at"):
                 if r.get(fld) is not None:
                     yield dict(case, **{name: xs[:k] + [dict(r, **{fld: None})] + xs[k + 1:]})
             for fld in ("params_fail",):
